@@ -1,5 +1,6 @@
 import WhVerif.Model.C12
 import WhVerif.Model.C12Run
+import WhVerif.Spec.C12
 /-! Independent yard-sticks for the parts of C12 added with `Model/C12Run.lean` (core Lean only):
 the records the reader must keep, the defining property of N50, the maximal runs the GTF writer must report. -/
 namespace WhVerif.C12
@@ -57,5 +58,27 @@ def runRow : List (BlockId × Member) → Option (Nat × Nat × Nat)
 def AdjDiff : List (List (BlockId × Member)) → Prop
   | a :: b :: rest => (∀ x ∈ a, ∀ y ∈ b, x.1 ≠ y.1) ∧ AdjDiff (b :: rest)
   | _ => True
+
+/-! ### the splitting loop with an arbitrary sorting routine -/
+
+/-- the loop of `get_nonoverlapping_blocks` with an arbitrary sorting routine in place of `sortBlocks` -/
+def nonoverlapLoopG (sort : List Block → List Block) : Nat → List Block → Option (List Block)
+  | 0, _ => none
+  | _ + 1, [] => some []
+  | _ + 1, [b] => some [b]
+  | n + 1, b :: nxt :: rest =>
+    if hi b > lo nxt then
+      let (left, right) := splitBlock b (lo nxt) (hi nxt)
+      let q' := if right.length > 1 then sort (right :: nxt :: rest) else nxt :: rest
+      if left.length < 2 then nonoverlapLoopG sort n q'
+      else (nonoverlapLoopG sort n q').map (left :: ·)
+    else (nonoverlapLoopG sort n (nxt :: rest)).map (b :: ·)
+
+def nonoverlapG (sort : List Block → List Block) (blocks : List Block) : Option (List Block) :=
+  nonoverlapLoopG sort (totalLen (sort (bigOf blocks)) + 1) (sort (bigOf blocks))
+
+/-- a routine that returns its argument sorted by leftmost position (any tie-breaking, any algorithm) -/
+def IsSort (sort : List Block → List Block) : Prop := ∀ l, (sort l).Perm l ∧ QSorted (sort l)
+
 
 end WhVerif.C12
